@@ -317,6 +317,7 @@ class Analysis(object):
         self.vs = sorted(v for v in self.vtypes if v not in self.addr_taken)
         self.thr = self._thresholds()
         self.part = self._partition_points()
+        self.cong = self._congruences()
         self.before = {}
         self.term_state = {}
         self.block_in = {}
@@ -378,6 +379,47 @@ class Analysis(object):
                     if r[1] in ('<', '>='):
                         pts.add((r[0]['name'], c))
         return pts
+
+    def _congruences(self):
+        """v == r (mod k) for locals only ever set to constants and stepped by +-k: {v: (k, r)}"""
+        from math import gcd
+        info = {}
+        bad = set()
+        for s in self.fn.sites():
+            ev = s.ev
+            v = val = op = None
+            if ev['k'] == 'store' and is_var(ev.get('lhs')):
+                v, val, op = ev['lhs']['name'], ev.get('rhs'), ev.get('op')
+            elif ev['k'] == 'decl' and ev.get('var'):
+                v, val, op = ev['var'], ev.get('init'), '='
+                if val is None:
+                    continue
+            if v is None or v not in self.vtypes or v in self.addr_taken:
+                continue
+            c = const_of(val) if val is not None else None
+            if op == '=' and isinstance(c, int):
+                info.setdefault(v, {'consts': set(), 'steps': set()})['consts'].add(c)
+            elif op in ('+=', '-=') and isinstance(c, int) and c != 0:
+                info.setdefault(v, {'consts': set(), 'steps': set()})['steps'].add(abs(c))
+            elif op in ('++', '--'):
+                info.setdefault(v, {'consts': set(), 'steps': set()})['steps'].add(1)
+            else:
+                bad.add(v)
+        for p in self.fn.param_info:
+            bad.add(p['name'])
+        out = {}
+        for v, d in info.items():
+            if v in bad or not d['steps'] or not d['consts']:
+                continue
+            k = 0
+            for x in d['steps']:
+                k = gcd(k, x)
+            cs = sorted(d['consts'])
+            for x in cs[1:]:
+                k = gcd(k, abs(x - cs[0]))
+            if k > 1:
+                out[v] = (k, cs[0] % k)
+        return out
 
     def top(self):
         o = Oct(self.vs)
@@ -696,6 +738,16 @@ class Analysis(object):
                 o.empty = True
                 o.closed = True
             return o
+        if len(t) == 1 and list(t.values())[0] in (1, -1) and list(t.keys())[0] in self.cong:
+            (v, a), = t.items()
+            k, r = self.cong[v]
+            if a == 1:          # v <= c  ->  largest value <= c in the class
+                c = c - ((c - r) % k)
+            else:               # -v <= c, i.e. v >= -c  ->  smallest value >= -c in the class
+                lo = -c
+                lo = lo + ((r - lo) % k)
+                c = -lo
+            return o.add(t, c)
         if len(t) <= 2 and all(abs(a) == 1 for a in t.values()):
             return o.add(t, c)
         if len(t) == 1:
